@@ -42,6 +42,8 @@ pub mod abi {
         fn str_arg(&self, s: &str) -> usize;
         fn slice_arg(&self, s: &[u32], t: &[String]) -> Vec<u32>;
         fn result_ret(&self, a: u32) -> Result<u32, String>;
+        fn result_fixed(&self, a: u32) -> Result<u32, (u32, u32)>;
+        fn result_wide_err(&self, a: u8) -> Result<(), (u64, u64)>;
         fn option_ret(&self, a: Option<u32>) -> Option<String>;
         fn boxed_trait_arg(&self, cb: Box<dyn Callback>) -> u32;
         fn borrowed_trait_arg(&self, cb: &dyn Callback) -> u32;
